@@ -9,6 +9,7 @@ pub mod refchain;
 pub mod refdl;
 pub mod rng;
 pub mod sweep;
+pub mod verifier;
 pub mod versions;
 pub mod wire;
 pub mod world;
@@ -80,9 +81,14 @@ fn check(property: &str, tier: &str, seed: u64, threads: usize, runs: Option<usi
         verif_dir: verif_dir.to_string(),
     };
     match property {
-        "C01" | "C02" | "C03" | "C04" | "C07" | "C08" | "C12" | "C15" | "C16" => {
+        "C01" | "C02" | "C03" | "C04" | "C07" | "C08" | "C11" | "C12" | "C13" | "C15" | "C16" => {
             let e = worldengine::WorldEngine::new(property);
-            driver::run_check(&e, &mk(3000, 200_000)).exit_code
+            let (q, t) = match property {
+                "C01" => (1500, 60_000),
+                "C11" | "C13" => (2000, 100_000),
+                _ => (3000, 200_000),
+            };
+            driver::run_check(&e, &mk(q, t)).exit_code
         }
         other => {
             eprintln!("HARNESS: no check for property {other}");
